@@ -173,7 +173,16 @@ namespace Ark
 open Ark.Props.C01World
 
 /-- **The joint world invariant** for the fragment without components, relations and
-    observers.  `fl` is the (ghost) free list of the entity pool. -/
+    observers.  `fl` is the (ghost) free list of the entity pool.
+
+    Relative to the first sketch of the invariant:
+    * `aliveIff` is not a field but the derived theorem `WInv.aliveIff`, and it is stated for
+      IDs *outside* the free list only — for a freed ID the unrestricted statement is false
+      (`Alive` compares generations only; see `Ark.Props.C01Hist.forged_alive`);
+    * `stale` (no memory behind the pool slice) is added so that `Alive` reads exactly the slot;
+    * `tab0` (one table, no columns) is the fragment's table layout; it gives `compsOf = some []`,
+      "rows of table 0 = Σ table sizes" and makes `fewTables` redundant (kept for the general
+      case). -/
 structure WInv (w : World) (fl : List Nat) : Prop where
   /-- I2: entity index ↔ table rows -/
   idx : IdxInv w
